@@ -7,10 +7,10 @@ open IpcHub.Media IpcHub.Drv
 
 def natOf (s : String) : Nat := s.toNat?.getD 0
 
-/-- one scripted op:  P:<ch>:<payloadhex> | J:<name>:<gop>:<panicAt> | S:<name> | X | T:<name> | R:<name> -/
+/-- one scripted op:  P:<ch>:<rtp timestamp>:<payloadhex> | J:<name>:<gop>:<panicAt> | S:<name> | X | T:<name> | R:<name> -/
 def parseOp (uid : Nat) (tok : String) : Option Label :=
   match tok.splitOn ":" with
-  | ["P", ch, hex] => (hexToBytes hex).map (fun b => Label.pub { uid := uid, ch := natOf ch, payload := b })
+  | ["P", ch, ts, hex] => (hexToBytes hex).map (fun b => Label.pub { uid := uid, ch := natOf ch, payload := b, ts := natOf ts })
   | ["J", n, g, pa] => some (.join (natOf n) (g = "1") (natOf pa))
   | ["S", n] => some (.stop (natOf n))
   | ["X"] => some .close
@@ -74,12 +74,12 @@ def traceOk (hevc gop : Bool) (ps : List Pkt) (d : List Nat) (full : Bool := fal
     ok d (rp ++ (ps.drop k).map (·.uid)) ||
     ok d ((ps.drop k).map (·.uid)))     -- joined without the cache
 
-/-- `trace <hevc> <gop> <ch:hex,...> <uids;uids;...>` (a list prefixed by `!` must be complete) → per consumer `ok<k>` / `bad` -/
+/-- `trace <hevc> <gop> <ch:ts:hex,...> <uids;uids;...>` (a list prefixed by `!` must be complete) → per consumer `ok<k>` / `bad` -/
 def runTrace (hevc gop : Bool) (pub : String) (cons : String) : String :=
   let pkts := (pub.splitOn ",").filter (· ≠ "")
   let ps : List Pkt := (List.range pkts.length).zip pkts |>.filterMap (fun (i, t) =>
     match t.splitOn ":" with
-    | [ch, hex] => (hexToBytes hex).map (fun b => ({ uid := i + 1, ch := natOf ch, payload := b } : Pkt))
+    | [ch, ts, hex] => (hexToBytes hex).map (fun b => ({ uid := i + 1, ch := natOf ch, payload := b, ts := natOf ts } : Pkt))
     | _ => none)
   if ps.length ≠ pkts.length then "bad-op" else
   let outs := (cons.splitOn ";").map (fun c =>
